@@ -11,7 +11,14 @@ import (
 	"ivgsa/internal/sym"
 )
 
-func init() { register("C16", ruleC16) }
+func init() { register("C16", ruleC16, ruleC16_4) }
+
+// ruleC16_4: clause (c) - colours through palette indices, registers and blends resolve to the colour a direct
+// colour would give (the resolution of Color.Resolve, shared with C04.4 / C09.5 / C14.4).
+func ruleC16_4(c *Ctx) {
+	c.R.Rule("C16.4", "colouring through the palette, the registers or a blend is the same as the equivalent direct colour: Color.Resolve returns a direct colour as is, the table entry at the masked index unchanged for palette and register colours (whatever it holds - a register may hold a gradient descriptor), and the specification's per-channel blend of the resolved operands", 7)
+	ruleResolve(c, "C16.4")
+}
 
 // ruleC16 decides the structural preconditions of the pixel-invariance
 // property: paint and mask live in rectangle-relative pixel space (every
@@ -165,10 +172,25 @@ func ruleC16(c *Ctx) {
 			z := in.ParamObj("z", r.T)
 			rv := in.LoadAt(mem, z, r.fieldPath("r"))
 			// r or the zero rectangle (when empty)
-			ok = false
-			for _, lf := range sym.DeepCases(rv, 8) {
-				if lf.Val.Key() == "$param:r" {
-					ok = true
+			// on every path: the rectangle as given, or the zero rectangle for an empty one - decided from the
+			// rectangle alone (not clipped against, or otherwise dependent on, the rasteriser)
+			leaves := sym.DeepCases(rv, 16)
+			ok = len(leaves) > 0
+			for _, lf := range leaves {
+				if sym.CondsContradict(lf.Conds) {
+					continue
+				}
+				isParam := lf.Val.Key() == "$param:r"
+				isZero := lf.Val.Op == "zero" || strings.Trim(normAgg(lf.Val), "{},0 ") == ""
+				dep := false
+				for _, cd := range lf.Conds {
+					if sym.Mentions(cd, "$param:dst") || strings.Contains(cd.Key(), "call") || strings.Contains(cd.Key(), "havoc") {
+						dep = true
+					}
+				}
+				if !(isParam || isZero) || dep {
+					ok = false
+					detail = "r = " + shortKey(lf.Val) + " under " + condKey(lf.Conds)
 				}
 			}
 			// the transform is recomputed from the new rectangle: scaleX mentions the parameter r
